@@ -12,7 +12,7 @@ import (
 func TestVerifC04(t *testing.T) {
 	vkit.Run(t, "C04", func(ctx *vkit.Ctx) {
 		c04Probes(ctx)
-		ctx.Group("random", ctx.N(240, 4000), func(cs *vkit.Case) {
+		ctx.Group("random", ctx.N(4000, 60000), func(cs *vkit.Case) {
 			x := vexec.NewExec(cs, cs.SubDir("data"))
 			defer func() {
 				if x.E != nil {
